@@ -11,3 +11,12 @@ pub fn get_peers_in_range(
 ) -> Vec<PeerId> {
     super::get_peers_in_range(peers, address, range)
 }
+
+/// Pass-through to `SwarmDriver::get_replicate_candidates` (the routing-table peers chosen as
+/// replication targets for `target`).
+pub fn get_replicate_candidates(
+    driver: &mut crate::SwarmDriver,
+    target: &NetworkAddress,
+) -> Vec<PeerId> {
+    driver.get_replicate_candidates(target)
+}
